@@ -3,6 +3,8 @@ package main
 import (
 	"fmt"
 	"strings"
+
+	"github.com/my-cloud/ruthenium/validatornode/domain/ledger"
 )
 
 // C06: fork choice among up to eight neighbors serving chains that are equal to, shorter
@@ -15,6 +17,16 @@ func runForkSuite(seed uint64, n int, out *Out, stats *Stats) {
 		w := NewWorld(id, seed*3010349+uint64(i), "honest", stats, out)
 		r := w.r
 		w.set.Limit = 1440
+		if i%4 == 3 {
+			isolationCase(w, id, i, out, stats)
+			out.Case(w.rec.Emit())
+			for k, d := range w.rec.Digests {
+				out.Digest(id, k, w.rec.OpKinds[k], d)
+			}
+			stats.Cases++
+			stats.Ops += len(w.rec.Ops)
+			continue
+		}
 		// more sources: four independent producers besides the host
 		for len(w.helpers) < 4 {
 			w.helpers = append(w.helpers, NewNode(w.set, w.wallets[1+len(w.helpers)%4].Addr))
@@ -57,6 +69,28 @@ func runForkSuite(seed uint64, n int, out *Out, stats *Stats) {
 			}
 			for hi := 0; hi < 4; hi += 2 {
 				if k <= extra[hi] {
+					// branch blocks often carry a wallet transaction spending an output the branch's
+					// producer sees as confirmed (so candidates consume outputs of the host's registry)
+					if r.Chance(2, 3) {
+						h := w.helpers[hi]
+						var all []spendable
+						for _, wl := range w.wallets {
+							for _, u := range h.Ureg.Utxos(wl.Addr) {
+								v := u.Value(ts, w.set.HalfLife, w.set.Base, w.set.ILimit)
+								if v > 3*w.set.Fee+30 {
+									all = append(all, spendable{u.TransactionId(), u.OutputIndex(), v, wl})
+								}
+							}
+						}
+						if len(all) > 0 {
+							u := all[r.Intn(len(all))]
+							third := (u.value - w.set.Fee) / 3
+							tx := w.build(&txPlan{ins: []spendable{u}, outs: []*JOutput{{w.wallets[r.Intn(5)].Addr, false, third}, {w.wallets[r.Intn(5)].Addr, false, third}, {u.owner.Addr, false, u.value - w.set.Fee - 2*third - 1}}, ts: ts - 1})
+							h.Pool.AddTransaction(tx, "x", "y")
+							w.rec.noteTx(tx)
+							stats.Count("forks/branch block with a wallet transaction")
+						}
+					}
 					w.helpers[hi].Pool.Validate(ts)
 					w.helpers[hi].Log.Take()
 				}
@@ -109,6 +143,23 @@ func runForkSuite(seed uint64, n int, out *Out, stats *Stats) {
 		before := w.host.AllBlocks()
 		res := w.rec.Update(w.now, peers)
 		after := w.host.AllBlocks()
+		// the answer of an honest node (a chain produced by real nodes from wallet transactions that
+		// spend confirmed outputs only) may be set aside as a fork or as too short, never for its content
+		for k, p := range peers {
+			if !(strings.HasPrefix(kinds[k], "A") || strings.HasPrefix(kinds[k], "B") || strings.HasPrefix(kinds[k], "host")) {
+				continue
+			}
+			for _, stage := range []string{"inc|", "full|"} {
+				reason, ok := w.rec.Rejections[stage+p.Target]
+				if !ok {
+					continue
+				}
+				cl := classify(reason)
+				if cl != "fork" && cl != "short" {
+					out.Violation("C06", id, fmt.Sprintf("honest-candidate-rejected	the %s answer of honest neighbor %s (%s) was rejected: %s", strings.TrimSuffix(stage, "|"), p.Target, kinds[k], reason))
+				}
+			}
+		}
 		replaced := strings.HasPrefix(res, "replaced")
 		stats.Count(fmt.Sprintf("forks/host%d/peers%d=%s", minInt(hostLen, 6), np, res[:indexOrLen(res, ':')]))
 		stats.Mark(fmt.Sprintf("%d/%s/%s", hostLen, strings.Join(kinds, ","), res[:indexOrLen(res, ':')]))
@@ -231,4 +282,135 @@ func countBlocks(bs []byte) int {
 		}
 	}
 	return n
+}
+
+// isolationCase: candidates of one round must not influence each other. The host holds a chain of
+// L blocks (L over the lengths at which a cloned prefix has spare capacity, long chains included);
+// the neighbors, in order: one in sync with the host or one block ahead, then one that offers a
+// different block at the host's tip height - a competing tip of another producer, or the host's own
+// tip with one transaction doubled (every per-transaction check passes, only the final replay of
+// the candidate refuses it) - and sometimes a third. Whatever is rejected or not selected must
+// leave the others as their neighbors serve them.
+func isolationCase(w *World, id string, i int, out *Out, stats *Stats) {
+	r := w.r
+	L := []int{4, 5, 6, 7, 8, 9, 10, 11, 12, 13, 34, 35, 36, 38, 39, 40}[r.Intn(16)]
+	if r.Chance(1, 2) {
+		L = 4 + r.Intn(10)
+	}
+	competitor := NewNode(w.set, w.wallets[2].Addr)
+	for k := 0; k < L; k++ {
+		w.tickAll()
+		if k == 2 {
+			if conf := w.confirmed(w.host, w.wallets[0]); len(conf) > 0 && conf[0].value > 100*w.set.Fee+1000 {
+				var outs []*JOutput
+				share := (conf[0].value - w.set.Fee) / 6
+				for j := 0; j < 6; j++ {
+					outs = append(outs, &JOutput{w.wallets[j%5].Addr, false, share})
+				}
+				w.rec.Admit(w.build(&txPlan{ins: []spendable{conf[0]}, outs: outs, ts: w.now}))
+			}
+		}
+		if k == L-1 {
+			// the competitor leaves here: it holds the host's chain but the tip, and makes its own
+			competitor.Pool.Validate(w.host.Chain.FirstBlockTimestamp())
+			helperSync(competitor, w.now-w.set.Interval, []*Peer{honestPeer("10.0.0.1:10600", w.host)})
+			// the host's tip carries a wallet transaction
+			var all []spendable
+			for _, wl := range w.wallets {
+				for _, u := range w.confirmed(w.host, wl) {
+					if u.value > 3*w.set.Fee+30 {
+						all = append(all, u)
+					}
+				}
+			}
+			if len(all) > 0 {
+				u := all[r.Intn(len(all))]
+				w.rec.Admit(w.build(&txPlan{ins: []spendable{u}, outs: []*JOutput{{w.wallets[r.Intn(5)].Addr, false, u.value - w.set.Fee - 1}}, ts: w.now}))
+			}
+			competitor.Pool.Validate(w.now)
+		}
+		w.rec.Validate(w.now)
+	}
+	hostBlocks := w.host.AllBlocks()
+	follower := NewNode(w.set, w.wallets[4].Addr)
+	follower.Pool.Validate(w.host.Chain.FirstBlockTimestamp())
+	helperSync(follower, w.now, []*Peer{honestPeer("10.0.0.1:10600", w.host)})
+	ahead := NewNode(w.set, w.wallets[3].Addr)
+	ahead.Pool.Validate(w.host.Chain.FirstBlockTimestamp())
+	helperSync(ahead, w.now, []*Peer{honestPeer("10.0.0.1:10600", w.host)})
+	ahead.Pool.Validate(w.now + w.set.Interval)
+	// the host's tip with its first ordinary transaction doubled
+	dup := MirrorBlocks(hostBlocks)
+	hasDup := false
+	if len(dup) > 0 {
+		tip := dup[len(dup)-1]
+		for _, t := range tip.Transactions {
+			if len(t.Inputs) != 0 {
+				tip.Transactions = append([]*JTx{t}, tip.Transactions...)
+				hasDup = true
+				break
+			}
+		}
+	}
+	type src struct {
+		name string
+		peer func(string) *Peer
+	}
+	first := []src{{"in-sync", func(t string) *Peer { return honestPeer(t, follower) }}, {"one-ahead", func(t string) *Peer { return honestPeer(t, ahead) }}}[r.Intn(2)]
+	seconds := []src{{"competing-tip", func(t string) *Peer { return honestPeer(t, competitor) }}}
+	if hasDup {
+		seconds = append(seconds, src{"doubled-transaction-tip", func(t string) *Peer { return staticPeer(t, dup, w.set.Limit) }}, src{"doubled-transaction-tip", func(t string) *Peer { return staticPeer(t, dup, w.set.Limit) }})
+	}
+	second := seconds[r.Intn(len(seconds))]
+	order := []src{first, second}
+	if r.Chance(1, 3) {
+		order = append(order, []src{{"in-sync", func(t string) *Peer { return honestPeer(t, follower) }}, {"one-ahead", func(t string) *Peer { return honestPeer(t, ahead) }}}[r.Intn(2)])
+	}
+	if r.Chance(1, 5) {
+		order[0], order[1] = order[1], order[0]
+	}
+	var peers []*Peer
+	var names []string
+	for k, o := range order {
+		peers = append(peers, o.peer(fmt.Sprintf("10.8.%d.%d:10600", i%250, k)))
+		names = append(names, o.name)
+	}
+	now := w.now + w.set.Interval
+	res := w.rec.Update(now, peers)
+	after := w.host.AllBlocks()
+	stats.Count(fmt.Sprintf("forks/isolation host%d %s=%s", L, strings.Join(names, ","), res[:indexOrLen(res, ':')]))
+	stats.Mark(fmt.Sprintf("iso/%d/%s/%s", L, strings.Join(names, ","), res[:indexOrLen(res, ':')]))
+	// the held chain is, block for block, the host's old chain or what one accepted neighbor serves
+	same := func(a []*ledger.Block, b []*ledger.Block) bool {
+		if len(a) != len(b) {
+			return false
+		}
+		for k := range a {
+			if blockHashHex(a[k]) != blockHashHex(b[k]) {
+				return false
+			}
+		}
+		return true
+	}
+	ok := same(after, hostBlocks)
+	for k, o := range order {
+		var served []*ledger.Block
+		switch o.name {
+		case "in-sync":
+			served = follower.AllBlocks()
+		case "one-ahead":
+			served = ahead.AllBlocks()
+		case "competing-tip":
+			served = competitor.AllBlocks()
+		}
+		if served != nil && accepted(res, peers[k].Target) && same(after, served) {
+			ok = true
+		}
+	}
+	if !ok {
+		out.Violation("C06", id, fmt.Sprintf("unverified\tafter a round with neighbors [%s] the host (chain of %d blocks before) holds a chain of %d blocks that is neither its old chain nor the chain of an accepted honest neighbor", strings.Join(names, ", "), len(hostBlocks), len(after)))
+	}
+	if w.rec.Mon != nil {
+		w.rec.Mon.CheckChain(after, "after the isolation round")
+	}
 }
